@@ -19,15 +19,15 @@ d = d[:i] + ("## 10. Seeded changes and which checks catch them\n\nEach entry is
              "that saw only the property text and a scratch worktree (nothing of /verif), and was confirmed by hand: the suite passes with it, "
              "its own demonstration fails with it and passes without it (`tools/try_wt.sh`), and the listed check reports it on every run. "
              "\"after strengthening\" means the check as it stood missed the change and was extended (last column); nothing was loosened.\n\n"
-             + head + body + f"\n{len(rows)} seeded changes kept so far, in 17 waves. The authors were steered differently from wave to wave: per property "
+             + head + body + f"\n{len(rows)} seeded changes kept so far, in 18 waves. The authors were steered differently from wave to wave: per property "
              f"(waves 1-8, 10), per source region (9), interactions of two features (11), changes that break an earlier repair again (11), "
              f"options (12), defaults / constants / data-dependent branches (13), numeric and textual boundaries and state that is already on "
              f"disk (14), speed and tidiness - caches, early exits, merged passes (15), robustness and user-friendliness - broad handlers, "
-             f"fallbacks, tolerant parsing (16), modernising and porting - pathlib, scandir / glob, f-strings, other element builders (17). "
+             f"fallbacks, tolerant parsing (16), modernising and porting - pathlib, scandir / glob, f-strings, other element builders (17), performance shortcuts keyed too coarsely and two cooperating sites (18). "
              f"In every wave between half and three quarters of the changes were missed by the checks as they stood when the change "
-             f"arrived; after strengthening, every kept change is caught on the current /repo HEAD (`tools/all_seeds.sh`, "
+             f"arrived; after strengthening, every kept change of waves 1-17 is caught on the current /repo HEAD (`tools/all_seeds.sh`, "
              f"`tools/all_seeds_par.sh`), except those marked RETIRED, which a later repair of /repo turned into correct code. "
-             f"Side remarks of the authors about the unchanged code were reproduced and, where genuine, repaired (F25, F27-F30). "
+             f"Wave 18 (S260-S278) arrived in the last hour of the work: 5 of its 19 changes are reported (S270, S272 after the whole-case confirmation mode was added, S273, S274, S275), the other 14 are OPEN MISSES, marked MISSED in the table with what each needs - they are the next strengthening targets (same-named entries / histories in different places under anchored patterns: S261, S266, S271; nested histories below ignored folders: S264, S278; same-named nested histories sealed in one run: S265; depth-2 nested root after a plain sibling: S267; root-level rename and rename back for verify -dh: S268; files over 1 MiB with a changing number of formats: S263; colliding relative paths across histories for diff: S262; a 0-byte rename next to a new empty folder: S276; two library objects / two commands of one process: S260, S269, S277). Side remarks of the authors about the unchanged code were reproduced and, where genuine, repaired (F25, F27-F30). "
              f"Last full regression (all patches applied to /repo HEAD f5d1260 in throw-away worktrees, quick tier of the seed's own check): "
              f"258 of 258 non-retired seeds reported, 16 of 16 property-preserving patches silent in all 20 checks.\n") + rest
 open("/verif/DESIGN.md", "w").write(d)
